@@ -1447,6 +1447,30 @@ impl GroupEncoding for JubjubAffine {
     }
 }
 
+/// Verification hook H9: raw coordinate access to [`JubjubExtended`], so that
+/// an out-of-tree model-checking harness can build an arbitrary extended point
+/// and read the coordinates of a result. Add-only, compiled only with the
+/// `verif-hooks` feature.
+#[cfg(feature = "verif-hooks")]
+impl JubjubExtended {
+    /// Builds an extended point from raw `(u, v, z, t1, t2)` without any
+    /// check.
+    pub fn verif_from_coords(c: [Base; 5]) -> Self {
+        JubjubExtended {
+            u: c[0],
+            v: c[1],
+            z: c[2],
+            t1: c[3],
+            t2: c[4],
+        }
+    }
+
+    /// Returns the raw `(u, v, z, t1, t2)`.
+    pub fn verif_coords(&self) -> [Base; 5] {
+        [self.u, self.v, self.z, self.t1, self.t2]
+    }
+}
+
 #[test]
 fn test_is_on_curve_var() {
     assert!(JubjubAffine::identity().is_on_curve_vartime());
